@@ -404,3 +404,106 @@ def _multi_check(case):
         classes.append("heads>=2")
     nontrivial = m is not None and not m.all() and len({fq, fk, fv, fc}) > 1
     return Info(nontrivial=nontrivial, classes=classes)
+
+
+# ------------------------------------------------------------------ long sequences
+
+
+@st.composite
+def _long_case(draw, tier):
+    big = tier == "thorough"
+    T = draw(st.sampled_from([1500, 1025, 2500, 200, 1024, 2047, 777, 4099] + ([8193, 10007, 3000, 5000] if big else [])))
+    return {
+        "T": T, "B": draw(st.sampled_from([1, 2, 3])), "p": draw(st.sampled_from([0, 1])),
+        "neg": draw(st.booleans()),
+        "flavour": draw(st.sampled_from(["dot", "general"])),
+        "Q": draw(st.sampled_from([1, 2, 3])), "D": draw(st.sampled_from([1, 2])),
+        # keys / values / mask are deterministic expansions of a few generated integers
+        "ka": draw(st.integers(1, 97)), "kb": draw(st.integers(0, 50)), "km": draw(st.sampled_from([7, 11, 13, 17])),
+        "va": draw(st.integers(1, 4000)),
+        "mask_mod": draw(st.sampled_from([0, 2, 3, 5, 64])), "mask_keep_tail": draw(st.booleans()),
+        "q_vals": draw(_ints(9, -2 * PQ, 2 * PQ)),
+        "weight": draw(_ints(9, -PQ, PQ)),
+        "scale": draw(st.sampled_from([4, 1, 2, 0])),
+        "rot": draw(st.integers(1, 5000)),
+        "dtype": draw(st.sampled_from(["float32", "float64"])),
+        "multi": draw(st.booleans()),
+    }
+
+
+@subcheck("C20", "long_sequence", _long_case, 120, 2000,
+          doc="sequence lengths of hundreds to thousands (1024 +- 1, 1500, 2500, 4099, ...): documented formula in NumPy float64, "
+              "convexity, rotation of the sequence positions; single-head dot / generalised and multi-headed over dot heads",
+          required_classes=["T>1024", "T<=1024", "mask", "multi"])
+def _long_check(case):
+    import numpy as np
+    import torch
+    from pydrobert.torch.modules import (DotProductSoftAttention, GeneralizedDotProductSoftAttention,
+                                         MultiHeadedAttention)
+
+    T, B, p, Q, D, dtype = case["T"], case["B"], case["p"], case["Q"], case["D"], case["dtype"]
+    t = np.arange(T, dtype=np.int64)
+    P = 10007 if T < 10007 else 20011
+    kq = np.stack([((case["ka"] * (t + 3 * j) + case["kb"] * b) % case["km"]) - case["km"] // 2
+                   for b in range(B) for j in range(Q)], 0).reshape(B, Q, T).transpose(0, 2, 1) / PQ      # (B, T, Q)
+    vv = np.stack([((case["va"] * (t + 1) + 131 * b + 17 * j) % P) for b in range(B) for j in range(D)], 0)
+    vv = vv.reshape(B, D, T).transpose(0, 2, 1).astype(np.float64) / VQ                                      # (B, T, D)
+    if case["mask_mod"]:
+        m = ((t[None, :] + np.arange(B)[:, None]) % case["mask_mod"]) != 0
+        if case["mask_keep_tail"]:
+            m[:, : T // 2] = False
+        m[:, -1] = True
+    else:
+        m = None
+    q = np.array(case["q_vals"][: Q], dtype=np.float64)[None, :].repeat(B, 0) / PQ                           # (B, Q)
+    if p == 0:
+        kq, vv = kq.transpose(1, 0, 2), vv.transpose(1, 0, 2)
+        m = None if m is None else m.T
+    kq, vv = np.ascontiguousarray(kq), np.ascontiguousarray(vv)
+    m = None if m is None else np.ascontiguousarray(m)
+    dim = p - 3 if (case["neg"] and p >= 1 and not case["multi"]) else p
+    if case["flavour"] == "dot":
+        single = DotProductSoftAttention(Q, dim, case["scale"] / PQ)
+        ref = {"scale": case["scale"] / PQ}
+        flav = "dot"
+    else:
+        single = GeneralizedDotProductSoftAttention(Q, Q, dim, False)
+        _set(single.weight, case["weight"][: Q * Q])
+        ref = {"weight": _np(single.weight), "bias": None}
+        flav = "general"
+    classes = ["T>1024" if T > 1024 else "T<=1024", flav, dtype]
+    if m is not None:
+        classes.append("mask")
+    if case["multi"]:
+        classes.append("multi")
+        att = MultiHeadedAttention(Q, Q, D, 1, single, bias_WQ=False, bias_WK=False, bias_WV=False, bias_WC=False)
+        if flav == "general":
+            _set(single.weight, case["weight"][: Q * Q])
+            ref = {"weight": _np(single.weight), "bias": None}
+        for name, n_in in (("WQ", Q), ("WK", Q), ("WV", D), ("WC", att.WC.weight.shape[1])):
+            lin = getattr(att, name)
+            with torch.no_grad():
+                lin.weight.copy_(torch.eye(lin.weight.shape[0], lin.weight.shape[1]))
+        att = att.to(getattr(torch, dtype))
+        if att.WV.weight.shape != (D, D) or att.WC.weight.shape != (D, D):
+            return Info(nontrivial=False, classes=classes + ["skipped_projection_shape"])
+    else:
+        att = single.to(getattr(torch, dtype))
+    out = att(_t(q, dtype), _t(kq, dtype), _t(vv, dtype), _t(m, dtype))
+    obs = out.detach().double().numpy()
+    exp = R.single_head(flav, ref, q, kq, vv, m, p)
+    vs = 1.0 + float(np.abs(vv).max())
+    tol = (5e-4 if dtype == "float32" else 1e-9) * vs
+    _close("long sequence: output differs from softmax(masked score) weighted sum of values", obs, exp, tol)
+    e_shape = np.broadcast_shapes(tuple(list(q.shape[:p]) + [1] + list(q.shape[p:-1])), kq.shape[:-1])
+    lo, hi = R.kept_bounds(vv, m, e_shape, p)
+    slack = (1e-4 if dtype == "float32" else 1e-10) * vs
+    require(bool(((obs >= lo - slack) & (obs <= hi + slack)).all()), "long sequence: output outside [min, max] of the kept values",
+            [float(obs.min()), float(obs.max())], [float(lo.min()), float(hi.max())])
+    r = case["rot"] % T
+    if r:
+        out2 = att(_t(q, dtype), _t(np.roll(kq, r, axis=p), dtype), _t(np.roll(vv, r, axis=p), dtype),
+                   _t(None if m is None else np.roll(m, r, axis=p), dtype))
+        _close("long sequence: output changed under a rotation of the sequence positions", out2.detach().double().numpy(), obs,
+               (2e-4 if dtype == "float32" else 1e-10) * vs)
+    return Info(nontrivial=T > 1024, classes=classes)
